@@ -33,10 +33,20 @@ def seed():
         return 0
 
 
+def _big_stack():
+    """coqc overflows the default 8 MB stack on string literals of several 10 kB (C13 contents)."""
+    import resource
+    try:
+        soft, hard = resource.getrlimit(resource.RLIMIT_STACK)
+        resource.setrlimit(resource.RLIMIT_STACK, (hard, hard))
+    except (ValueError, OSError):
+        pass
+
+
 def sh(cmd, timeout, cwd=None, env=None):
     try:
         p = subprocess.run(cmd, cwd=cwd, env=env, stdout=subprocess.PIPE, stderr=subprocess.STDOUT,
-                           timeout=timeout, text=True, errors="replace")
+                           timeout=timeout, text=True, errors="replace", preexec_fn=_big_stack)
         return p.returncode, p.stdout
     except subprocess.TimeoutExpired as e:
         out = e.stdout or ""
